@@ -244,14 +244,16 @@ rc::Gen<Case> gen()
         c.relaxed = *rc::gen::weightedElement<int>({{5, 1}, {4, 0}, {1, -1}});
         c.preserve = chance(25);
 
-        const bool big = *vp::range<int>(0, 1999) == 0; // rare: sizes around the 21845-byte URI and 64 KB header limits
+        const bool big = *vp::range<int>(0, 1999) == 0; // rare: sizes around the 64 KB request-target and header limits
+        bool hugeTarget = false;
         std::string s = genLeading();
         const size_t lineStart = s.size();
         s += genMethod();
         s += genDelim();
         if (big && chance(50)) {
             s += "/";
-            s += std::string(static_cast<size_t>(21845 + *vp::range<int>(-3, 2)), 'u');
+            s += std::string(static_cast<size_t>(65536 + *vp::range<int>(-3, 2)), 'u'); // String::RawSizeMaxXXX()
+            hugeTarget = true;
         } else
             s += genTarget();
         bool noVersion = false;
@@ -277,7 +279,7 @@ rc::Gen<Case> gen()
         if (s.empty()) s = "\r";
         c.input = s;
 
-        if (big || chance(45)) c.limit = big && chance(30) ? 100000 : 65536;
+        if (big || chance(45)) c.limit = hugeTarget ? 200000 : (big && chance(30) ? 100000 : 65536);
         else {
             const int k = *vp::range<int>(0, 6);
             const long long d = *vp::range<int>(-3, 3);
